@@ -228,6 +228,80 @@ theorem hyperplaneData_spec_isIso (T : Matrix (Fin (n + 2)) (Fin (n + 2)) K)
   apply hyperplaneData_spec T _ hn normal h1 j
   rw [Jm_eq_minkJ]; exact hT
 
+/-- the `n + 1` standard ideal vectors are linearly independent (`2 ≠ 0`): together with
+`hyperplaneData_spec` (each is lightlike and orthogonal to the normal) they are a *basis* of ideal
+points of the wall `e₁^⊥`, which has dimension `n + 1` -/
+theorem stdIdeal_linearIndependent (h2 : (2 : K) ≠ 0) :
+    LinearIndependent K (fun j : Fin (n + 1) => (stdIdeal j : Fin (n + 2) → K)) := by
+  rw [Fintype.linearIndependent_iff]
+  intro g hg
+  have hc : ∀ i : Fin (n + 2), ∑ k, g k * stdIdeal (K := K) k i = 0 := fun i => by
+    have := congrFun hg i
+    simpa [Finset.sum_apply, smul_eq_mul] using this
+  have hsmall : ∀ k : Fin (n + 1), k.val + 1 < n → g k = 0 := by
+    intro k hk
+    have := hc ⟨k.val + 2, by omega⟩
+    rw [Finset.sum_eq_single k] at this
+    · simpa [stdIdeal] using this
+    · intro b _ hb
+      have hbk : ¬ k.val = b.val := fun h => hb (Fin.ext h.symm)
+      simp only [stdIdeal]
+      rw [if_neg (by simp), if_neg (by simpa using hbk), if_neg (by simp; omega)]
+      simp
+    · simp
+  rcases Nat.eq_zero_or_pos n with hn | hn
+  · subst hn
+    intro j
+    have := hc 0
+    have hj : j = 0 := Fin.ext (by omega)
+    subst hj
+    simpa [stdIdeal] using this
+  · -- the last two indices
+    obtain ⟨m, rfl⟩ : ∃ m, n = m + 1 := ⟨n - 1, by omega⟩
+    let a : Fin (m + 2) := ⟨m, by omega⟩
+    let b : Fin (m + 2) := ⟨m + 1, by omega⟩
+    have hab : a ≠ b := by simp [a, b, Fin.ext_iff]
+    have hrest : ∀ k : Fin (m + 2), k ≠ a → k ≠ b → g k = 0 := fun k ha hb =>
+      hsmall k (by
+        have h1 : k.val ≠ m := fun h => ha (Fin.ext h)
+        have h2' : k.val ≠ m + 1 := fun h => hb (Fin.ext h)
+        omega)
+    have e0 : g a + g b = 0 := by
+      have := hc 0
+      rw [Finset.sum_eq_add_of_mem a b (Finset.mem_univ _) (Finset.mem_univ _) hab] at this
+      · simpa [stdIdeal] using this
+      · intro k _ hk
+        rw [hrest k hk.1 hk.2]; simp
+    have e1 : g a - g b = 0 := by
+      have := hc ⟨m + 2, by omega⟩
+      rw [Finset.sum_eq_add_of_mem a b (Finset.mem_univ _) (Finset.mem_univ _) hab] at this
+      · simpa [stdIdeal, a, b, sub_eq_add_neg] using this
+      · intro k _ hk
+        rw [hrest k hk.1 hk.2]; simp
+    have ha : g a = 0 := by
+      have : (2 : K) * g a = 0 := by linear_combination e0 + e1
+      exact (mul_eq_zero.1 this).resolve_left h2
+    have hb : g b = 0 := by linear_combination e0 - ha
+    intro j
+    by_cases hja : j = a
+    · rw [hja]; exact ha
+    by_cases hjb : j = b
+    · rw [hjb]; exact hb
+    exact hrest j hja hjb
+
+/-- … hence so are the ideal rows of the hyperplane data, for an invertible `T` (every isometry):
+the hyperplane data is the normal followed by a basis of ideal points of the wall -/
+theorem hyperplaneData_ideal_independent (h2 : (2 : K) ≠ 0)
+    (T : Matrix (Fin (n + 2)) (Fin (n + 2)) K) (hT : IsUnit T) (normal : Fin (n + 2) → K) :
+    LinearIndependent K (fun j : Fin (n + 1) => hyperplaneData T normal j.succ) := by
+  have hrow : (fun j : Fin (n + 1) => hyperplaneData T normal j.succ)
+      = (Matrix.vecMulLinear T) ∘ (fun j : Fin (n + 1) => (stdIdeal j : Fin (n + 2) → K)) := by
+    funext j; simp [hyperplaneData]
+  rw [hrow]
+  apply (stdIdeal_linearIndependent h2).map'
+  rw [LinearMap.ker_eq_bot]
+  exact Matrix.vecMul_injective_iff_isUnit.2 hT
+
 end field
 
 /-! ## the eigenvalue test of `from_reflection` -/
